@@ -218,6 +218,16 @@ func c05E2E(op map[string]interface{}) map[string]interface{} {
 	dir := c05Scratch()
 	defer os.RemoveAll(dir)
 	modelPath, policyPath := c05WritePolicy(dir, c05Pairs(op["policy"]))
+	// "fault": the policy cannot be loaded when the server comes up (file missing, model garbled):
+	// nobody is authorised to do anything — the opposite of nobody being checked
+	switch op["fault"] {
+	case "missing-policy":
+		os.Remove(policyPath)
+	case "garbled-model":
+		os.WriteFile(modelPath, []byte("[request_definition\nr = sub obj act\n[[[\n"), 0o644)
+	case "missing-model":
+		os.Remove(modelPath)
+	}
 	ba := accounts.BasicAuth{}
 	for _, c := range c05Pairs(op["creds"]) {
 		if len(c) == 2 {
@@ -660,6 +670,35 @@ func c05AccessGen(r *Run) {
 				r.Count("e2e.err=" + fmt.Sprint(o["err"]))
 				r.NonTrivial(fmt.Sprint("e2e|", c["m"], "|", c["tr"], "|", o["err"], o["handled"] != nil))
 			}
+		}
+	}
+	// the policy cannot be loaded: every authenticated caller is refused everything (root included?
+	// the MODEL answers with the empty policy, which is what an enforcer that does not exist grants)
+	{
+		pol := []interface{}{[]interface{}{"alice", "g1", "read"}, []interface{}{"alice", "g1", "write"}, []interface{}{"bob", "*", "read"}}
+		creds := []interface{}{[]interface{}{"alice", "pa"}, []interface{}{"bob", "pb"}, []interface{}{"root", "pr"}}
+		for _, fault := range []string{"missing-policy", "garbled-model", "missing-model"} {
+			var calls []interface{}
+			k := 0
+			for _, m := range methods {
+				for _, cr := range creds {
+					c := cr.([]interface{})
+					for _, tr := range []string{"grpc", "gateway"} {
+						if tr == "gateway" && m.Kind == "clientStream" {
+							continue // a refused gateway BulkAdd hangs (open finding)
+						}
+						k++
+						var elems []interface{} = []interface{}{}
+						if m.Kind == "clientStream" {
+							elems = []interface{}{map[string]interface{}{"ty": m.In, "graph": "g1", "tag": "v0"}}
+						}
+						calls = append(calls, map[string]interface{}{"tr": tr, "m": m.Full, "hdr": c05B64(c[0].(string), c[1].(string)),
+							"req": c05Req(m, "g1", fmt.Sprintf("f%d", k)), "elems": elems})
+					}
+				}
+			}
+			emit(map[string]interface{}{"op": "e2e", "fault": fault, "policy": pol, "creds": creds, "calls": calls})
+			r.Count("e2e.fault=" + fault)
 		}
 	}
 	r.Notes = append(r.Notes, "access mode: real accounts.CasbinAccess (repository's test/model.conf), BasicAuth, ProxyAuth; one instance per sequence")
